@@ -28,9 +28,12 @@ restricted), and that the three checks after the fold respect (`BuildPermI.chk_s
 Two facts of the MODEL found on the way — each makes the unrestricted statement ("any two `plainTree` blocks whose
 root is URL or a method") FALSE, so the theorems below carry the corresponding hypotheses:
 
-* `path_stage_order_matters`: `collectPaths` remembers only the LAST Path directive's parent (by source identity
-  `src`), so with equal `src` on different nodes (a method pasted twice from one macro) the Path stage accepts
-  `p₅ p₆ p₅` and rejects `p₅ p₅ p₆`.  Hypothesis `hpaths` (or: no Path directive in the two blocks).
+* (until F76) `collectPaths` remembered only the LAST Path directive's parent, so with one identity on different
+  nodes the Path stage accepted `p₅ p₆ p₅` and rejected `p₅ p₅ p₆` (the former `path_stage_order_matters`); hence the
+  hypothesis `hpaths` (or: no Path directive in the two blocks).  Since F76 the stage remembers every context that has
+  a Path directive, its verdict does not depend on the order (`C10P.paths_swap`, for arbitrary forests), `hpaths`
+  always holds (`C10P.swap_inter_verdict'`, `C10P.swap_inter'` are the theorems below without it) and the shape of the
+  old counterexample is rejected in both orders (`equal_ids_rejected_in_both_orders`).
 * `alien_url_order_matters`: the model does not restrict nesting; `GET /x { URL /y { Query } }` updates the
   interaction `GET /y` of ANOTHER block, accepted after `GET /y` and rejected before it.  `Gen.childAllowed`
   excludes such trees; `isMethodBlock` states the allowed shape.
@@ -53,9 +56,9 @@ The four `…'` theorems cover these blocks: with this the statement holds for e
 allows for URL and method trees.
 
 STILL MISSING relative to the full statement as first given: nothing that is true — the shapes `Gen.childAllowed`
-does not allow are counterexamples (`alien_url_order_matters`), and `hpaths` cannot be dropped
-(`path_stage_order_matters`).  For concrete forests the decidable checker `bothSame'` (sound: `bothSame'_sound`)
-covers all shapes.
+does not allow are counterexamples (`alien_url_order_matters`); `hpaths` is kept in the statements of this file and
+discharged in `Props/C10_Paths.lean` (`C10P.paths_swap`, F76).  For concrete forests the decidable checker
+`bothSame'` (sound: `bothSame'_sound`) covers all shapes.
 -/
 namespace JSight.C10I
 open JSight JSight.Build JSight.Gen
@@ -159,11 +162,11 @@ theorem same_of_sim {c c' : Cat} (h : BuildPermI.Sim c c') : SameUpToOrder' c c'
 /-! ### the theorems -/
 
 /-- (1, partial) the verdict: two neighbouring method blocks in either order (JSIGHT stays first).
-MISSING for the full `swap_inter_verdict`: URL-rooted blocks and a Tags child of the method; `hpaths` cannot be
-dropped (`path_stage_order_matters`) -/
+MISSING for the full `swap_inter_verdict`: URL-rooted blocks and a Tags child of the method.  Restated for F76: the
+Path stage starts from `[]` (it was `none`); `hpaths` now always holds (`C10P.paths_swap`) -/
 theorem swap_inter_verdict_partial (banned : List Kind) (pre post : List BTree) (a b : BTree)
     (ha : isMethodBlock a = true) (hb : isMethodBlock b = true) (hpre : pre ≠ [])
-    (hpaths : (pathsForest [] (pre ++ a :: b :: post) none).isOk = (pathsForest [] (pre ++ b :: a :: post) none).isOk) :
+    (hpaths : (pathsForest [] (pre ++ a :: b :: post) []).isOk = (pathsForest [] (pre ++ b :: a :: post) []).isOk) :
     (compile banned (pre ++ a :: b :: post)).isOk = (compile banned (pre ++ b :: a :: post)).isOk := by
   rw [isMethodBlock_eq] at ha hb
   have := BuildPermI.swap_methods_rrel banned pre post a b ha hb hpre hpaths
@@ -175,21 +178,21 @@ theorem swap_inter_verdict_partial (banned : List Kind) (pre post : List BTree) 
   · rfl
 
 /-- (2, partial) the catalog: an accepted document stays accepted in the other order and the catalogs are equal
-up to order.  (Both directions: exchange the roles of `a` and `b`.) -/
+up to order.  (Both directions: exchange the roles of `a` and `b`.)  Restated for F76: `[]` for `none` in `hpaths` -/
 theorem swap_inter_partial (banned : List Kind) (pre post : List BTree) (a b : BTree)
     (ha : isMethodBlock a = true) (hb : isMethodBlock b = true) (hpre : pre ≠ [])
-    (hpaths : (pathsForest [] (pre ++ a :: b :: post) none).isOk = (pathsForest [] (pre ++ b :: a :: post) none).isOk)
+    (hpaths : (pathsForest [] (pre ++ a :: b :: post) []).isOk = (pathsForest [] (pre ++ b :: a :: post) []).isOk)
     (c : Cat) (hc : compile banned (pre ++ a :: b :: post) = .ok c) :
     ∃ c', compile banned (pre ++ b :: a :: post) = .ok c' ∧ SameUpToOrder' c c' := by
   rw [isMethodBlock_eq] at ha hb
   obtain ⟨c', h, hs⟩ := (BuildPermI.swap_methods_rrel banned pre post a b ha hb hpre hpaths).both.1 c hc
   exact ⟨c', h, same_of_sim hs⟩
 
-/-- blocks without Path directives: the Path stage does not see the exchange -/
+/-- blocks without Path directives: the Path stage does not see the exchange (restated for F76: `[]` for `none`) -/
 theorem paths_noPath (pre post : List BTree) (a b : BTree) (ha : noPathTree a = true) (hb : noPathTree b = true) :
-    pathsForest [] (pre ++ a :: b :: post) none = pathsForest [] (pre ++ b :: a :: post) none := by
+    pathsForest [] (pre ++ a :: b :: post) [] = pathsForest [] (pre ++ b :: a :: post) [] := by
   rw [noPathTree_eq] at ha hb
-  exact BuildPermI.pathsForest_swap_noPath pre post a b ha hb none
+  exact BuildPermI.pathsForest_swap_noPath pre post a b ha hb []
 
 theorem swap_inter_verdict_partial_noPath (banned : List Kind) (pre post : List BTree) (a b : BTree)
     (ha : isMethodBlock a = true) (hb : isMethodBlock b = true) (hpre : pre ≠ [])
@@ -403,10 +406,13 @@ theorem isInterBlock_of' {t : BTree} (h : isInterBlock' t = true) : isInterBlock
       exact ⟨by simp [C10B.plainKind, e], plain_of_urlKids kids h.2⟩
 
 /-- (1', partial) the verdict: two neighbouring interaction blocks — method blocks (Tags allowed) or URL blocks with
-method and JSON-RPC children — in either order: every shape `Gen.childAllowed` allows.  `hpaths` cannot be dropped -/
+method and JSON-RPC children — in either order: every shape `Gen.childAllowed` allows.  Restated for F76: the Path
+stage starts from `[]` (it was `none`).  `hpaths` could not be dropped while the stage remembered the last Path
+directive only; now it holds for every forest (`C10P.paths_swap`; `C10P.swap_inter_verdict'` is this theorem without
+it), and no forest with equal identities separates the two orders (`equal_ids_rejected_in_both_orders`) -/
 theorem swap_inter_verdict_partial' (banned : List Kind) (pre post : List BTree) (a b : BTree)
     (ha : isInterBlock' a = true) (hb : isInterBlock' b = true) (hpre : pre ≠ [])
-    (hpaths : (pathsForest [] (pre ++ a :: b :: post) none).isOk = (pathsForest [] (pre ++ b :: a :: post) none).isOk) :
+    (hpaths : (pathsForest [] (pre ++ a :: b :: post) []).isOk = (pathsForest [] (pre ++ b :: a :: post) []).isOk) :
     (compile banned (pre ++ a :: b :: post)).isOk = (compile banned (pre ++ b :: a :: post)).isOk := by
   rw [isInterBlock'_eq] at ha hb
   have := BuildPermI.swap_blocks_rrel banned pre post a b ha hb hpre hpaths
@@ -417,10 +423,10 @@ theorem swap_inter_verdict_partial' (banned : List Kind) (pre post : List BTree)
   · cases this
   · rfl
 
-/-- (2', partial) the catalog -/
+/-- (2', partial) the catalog (restated for F76: `[]` for `none` in `hpaths`; without `hpaths`: `C10P.swap_inter'`) -/
 theorem swap_inter_partial' (banned : List Kind) (pre post : List BTree) (a b : BTree)
     (ha : isInterBlock' a = true) (hb : isInterBlock' b = true) (hpre : pre ≠ [])
-    (hpaths : (pathsForest [] (pre ++ a :: b :: post) none).isOk = (pathsForest [] (pre ++ b :: a :: post) none).isOk)
+    (hpaths : (pathsForest [] (pre ++ a :: b :: post) []).isOk = (pathsForest [] (pre ++ b :: a :: post) []).isOk)
     (c : Cat) (hc : compile banned (pre ++ a :: b :: post) = .ok c) :
     ∃ c', compile banned (pre ++ b :: a :: post) = .ok c' ∧ SameUpToOrder' c c' := by
   rw [isInterBlock'_eq] at ha hb
@@ -696,12 +702,17 @@ private def M5' : BTree := .node { kind := .Get, id := 70, src := 5, named := [(
 /-- the same method of a macro pasted twice: same coordinates, its own identity -/
 private def M5p : BTree := .node { kind := .Get, id := 76, src := 5, named := [("Path", s "/r/{a}")] } [pathDir 77]
 
-/-- the Path stage remembers the parent of the LAST Path directive only: `5 6 5` is accepted, `5 5 6` rejected.
-The exchanged blocks are method blocks: without `hpaths` (or `noPathTree`) the statement is false in the model -/
-theorem path_stage_order_matters :
+/-- F76: the Path stage remembers EVERY context that already has a Path directive (it used to remember the last one
+only: `5 6 5` was accepted, `5 5 6` rejected with `notUnique` at 75 — the former `path_stage_order_matters`).  Now a
+forest with two directives of one identity that both have a Path child is rejected in both orders, at the same
+directive; no forest separates the two orders of the Path stage any more (`C10P.paths_swap`), and `hpaths` above
+always holds (`C10P.swap_inter_verdict'`, `C10P.swap_inter'`) -/
+theorem equal_ids_rejected_in_both_orders :
     isMethodBlock M6 = true ∧ isMethodBlock M5' = true ∧
-    (compile [] [J, M5, M6, M5']).isOk = true ∧
-    C10B.errIs (compile [] [J, M5, M5', M6]) ⟨75, .notUnique⟩ = true := by decide +kernel
+    C10B.errIs (compile [] [J, M5, M6, M5']) ⟨75, .notUnique⟩ = true ∧
+    C10B.errIs (compile [] [J, M5, M5', M6]) ⟨75, .notUnique⟩ = true ∧
+    (pathsForest [] [J, M5, M6, M5'] []).isOk = false ∧ (pathsForest [] [J, M5, M5', M6] []).isOk = false := by
+  decide +kernel
 
 /-- F44 in the model: two copies of one macro method (same coordinates) one after the other are accepted -/
 theorem pasted_twice_accepted :
